@@ -256,16 +256,18 @@ example : keyValid Ex.kProfile = true ∧ (0 : UInt8) ∉ Ex.kProfile := by deci
 
 /-- **mapper/dispatcher consistency, any depth.**  Let `key` (any key form: relative, `a/b`, `..`,
 absolute, with keywords) resolve to mapper `p'`, entry `rk`, keywords `kws`.  If the site is
-`Consistent` along the chain from `p'` up to the root (a decidable, purely local check per level),
-then `url_mapper::map` produces `root ++ u`, and routing `u` from the root application runs exactly
-the handler `id` with exactly `args`. -/
+`Consistent` along the chain from `p'` up to the root (a decidable, purely local check per level,
+in which the keyword parameters are substituted into the entry's template **and into every
+ancestor's mount template**), then `url_mapper::map` produces `root ++ u`, and routing `u` from the
+root application makes the handlers observe exactly `expected` — for `expected = [.ran id args]`:
+exactly the handler `id` runs, with exactly `args`. -/
 theorem mapper_dispatch_consistent (rx : Rx) (hs : RxSound rx) (req : Option Bytes) (ctx : MCtx) (p p' : MPos) (key rk : Bytes)
-    (kws : List Bytes) (params : List Bytes) (cur : Opts) (anc : List Opts) (id : Nat) (args : List (Option Bytes))
+    (kws : List Bytes) (params : List Bytes) (cur : Opts) (anc : List Opts) (expected : List Event)
     (hkey : mapperForKey p (cstr key) = .ok (p', rk, kws)) (hk : kws.length ≤ params.length)
-    (hc : Consistent rx req ctx (mkOverrides kws (params.take kws.length)) p' cur anc rk (params.drop kws.length) id args = true) :
+    (hc : Consistent rx req ctx (mkOverrides kws (params.take kws.length)) p' cur anc rk (params.drop kws.length) expected = true) :
     ∃ u, mapUrl ctx p key params = .ok (ctx.root ++ u) ∧
-      appMain rx Gen.quirks req (rootOf cur anc) u = [.ran id args] := by
-  obtain ⟨u, hmap, hmain⟩ := consistent_spec rx req ctx _ p' cur anc rk _ id args hc
+      appMain rx Gen.quirks req (rootOf cur anc) u = expected := by
+  obtain ⟨u, hmap, hmain⟩ := consistent_spec rx req ctx _ p' cur anc rk _ expected hc
   refine ⟨u, ?_, ?_⟩
   · unfold mapUrl
     simp only [hkey]
@@ -310,15 +312,15 @@ example : (optMatches exRx Gen.quirks (re exPat_profile) none none [47, 112, 114
     (fun m => (m.str 1, m.str 2, m.get 3, m.get (-1))) = some (bob, seven, none, none) := by decide
 
 /-- the depth-3 site is `Consistent` for key `profile` of the innermost application -/
-theorem ex_consistent : Consistent exRx (some GET) ctx [] usersPos usersOpts [blogOpts, rootOpts] kProfile [bob, seven] 3
-    [some bob, some seven] = true := by decide
+theorem ex_consistent : Consistent exRx (some GET) ctx [] usersPos usersOpts [blogOpts, rootOpts] kProfile [bob, seven]
+    [.ran 3 [some bob, some seven]] = true := by decide
 
 /-- … so the theorem applies: the mapped URL is `/root/blog/u/profile/bob/7` and it is routed, from
 the root through two mounted applications, to handler 3 with `("bob","7")` -/
 example : mapUrl ctx usersPos kProfile [bob, seven] = .ok (ctx.root ++ profileUrl) ∧
     appMain exRx Gen.quirks (some GET) rootOpts profileUrl = [.ran 3 [some bob, some seven]] := by
   obtain ⟨u, h1, h2⟩ := mapper_dispatch_consistent exRx exRx_sound (some GET) ctx usersPos usersPos kProfile kProfile [] [bob, seven]
-    usersOpts [blogOpts, rootOpts] 3 [some bob, some seven] (by decide) (by decide) ex_consistent
+    usersOpts [blogOpts, rootOpts] [.ran 3 [some bob, some seven]] (by decide) (by decide) ex_consistent
   have hu : u = profileUrl := by
     have : mapUrl ctx usersPos kProfile [bob, seven] = .ok (ctx.root ++ profileUrl) := by decide
     rw [this] at h1
